@@ -15,6 +15,8 @@
    history is outside the class of C09_batch_closed_exact / C09_batch_open_exact for that url; `-` when the
    schedule does not end quiescent.  The `b` run is the instruction-level dispatcher `run` on `kexpand` of the
    schedule; it must end in the same system as `krun` (else `? kexpand`).
+   when the history of a `b` case has add-word commands / configuration changes, the class and the shape are those of
+   Model/C09Race.v instead (race_okb, race_overtaken on `xtrace` of the expanded schedule: C09_cmd_race_exact_partial).
    for a `q` schedule the world is that of the BIG-STEP specification Model/C09Seq.v (`sfold`, no instrs); it must be the
    world `krun` and `run_seq` end in (else `? sstep`); a fourth section follows: per url that is open on the client and
    has an entry, the components of `lag_of` that lag - `url:` followed by t (text), d (dictionary files), c (parser
@@ -88,6 +90,7 @@ let () =
             | [] -> world0 O in
           let h = List.filter_map (fun s -> if String.trim s = "" then None else Some (op_of s)) (String.split_on_char ';' hist) in
           let ks cs = List.map (fun c -> if c = "A" then KAdmit else KRun (nat_s c)) cs in
+          let xtr = ref [] in
           let res, tr = match tokens sched with
             | "k" :: cs -> model_krun w0 h (ks cs), None
             | "f" :: cs -> model_run w0 h (List.map (fun c -> if c = "A" then CAdmit else CRun (nat_s c)) cs), None
@@ -108,7 +111,13 @@ let () =
                  | _ -> failwith "sstep")
             | "b" :: cs ->
                 (match batch_krun w0 h (ks cs), model_krun w0 h (ks cs) with
-                 | Some (y, tr), Some y' -> if y = y' then Some y, Some tr else failwith "kexpand"
+                 | Some (y, tr), Some y' ->
+                     if y = y' then begin
+                       (match race_krun w0 h (ks cs) with
+                        | Some (y2, x) -> if y2 = y then xtr := x else failwith "kexpand"
+                        | None -> failwith "kexpand");
+                       Some y, Some tr
+                     end else failwith "kexpand"
                  | None, None -> None, None
                  | _ -> failwith "kexpand")
             | _ -> None, None in
@@ -124,6 +133,19 @@ let () =
                 | Some tr ->
                     Some
                     (if not (quiescentb y) then "-" else
+                     if List.exists (function AddUser _ | AddFile _ | CfgChange _ -> true | _ -> false) h then
+                       (* a history with commands: the class race_okb and the shape race_overtaken of Model/C09Race.v on
+                          the trace of reads, writes and critical sections (C09_cmd_race_exact_partial) *)
+                       String.concat " " (List.filter_map (fun u ->
+                         if not (race_okb w0 h u) then Some ("~" ^ url_s u)
+                         else begin
+                           let f = race_shape w0 w u !xtr in
+                           if (f.rf_text || f.rf_dict || f.rf_pcfg || f.rf_lcfg || f.rf_scfg) <> race_overtaken w0 w u !xtr then failwith "race_shape";
+                           (* the parser settings of a plain-text document do not show (pub_s prints P-) *)
+                           let plain = (match lookup u w.w_open with Some cd -> cd.cd_lang = LPlain | None -> false) in
+                           if f.rf_text || f.rf_dict || (f.rf_pcfg && not plain) || f.rf_lcfg || f.rf_scfg then Some (url_s u) else None
+                         end) us)
+                     else
                      String.concat " " (List.filter_map (fun u ->
                        let in_class = List.for_all batch_op h &&
                          (match astate0 (client_after h w0) u with
